@@ -59,6 +59,8 @@ def inbound_bodies(f):
             return True
         if "write_packet" in n or "Serialize" in n or "defmt::Format" in n:
             return True
+        if root.fn_name in ("size", "encoded_len") and (root.name.startswith("properties::") or root.name.startswith("varint::")):
+            return True  # encoded-size computations for outbound packets: not driven by inbound bytes
         return False
     cg = f.callgraph()
     seen = set()
@@ -109,8 +111,6 @@ DISCHARGE = [
     (r"handle_packet/call:swap_remove#1$", ["is Some"], "swap_remove(index) with the index position() just returned"),
     (r"keepalive_send_interval/assert:overflow-Sub#1$", ["0_u64 != Duration::as_millis(&*self.keepalive_interval)"],
      "keepalive - min(5000, keepalive/2) >= 0 (not inbound-data dependent)"),
-    (r"properties::Property::<'_>::size/assert:overflow-Add#\d+$", [], "sum of lengths of in-memory slices (not inbound-position dependent)"),
-    (r"properties::Properties::<'_>::size.*assert:overflow-Add", [], "sum of property sizes of in-memory slices"),
 ]
 
 
@@ -193,7 +193,7 @@ def rule_panic(R):
              "%s in %s is safe because: %s%s" % (s["what"], s["fn"], reason,
                                                  "" if not missing else " — but the guard `%s` no longer dominates it (guards now: %s)" % (missing[0], gs[:4])),
              where=s["span"])
-    R.floor("panic", n, 35, "panic-capable sites on the inbound path")
+    R.floor("panic", n, 28, "panic-capable sites on the inbound path")
     return sites, special
 
 
